@@ -14,7 +14,7 @@ pub enum J {
     Map(Vec<(String, J)>),
 }
 
-pub const KEYS: &[&str] = &["a", "b", "c", "d", "k1", "k2", "name", "tags", "items", "m", "n", "v", "flag", "size", "kind"];
+pub const KEYS: &[&str] = &["a", "b", "c", "d", "k1", "k2", "name", "tags", "items", "m", "n", "v", "flag", "size", "kind", "bucket_name", "max_size"];
 pub const STRS: &[&str] = &[
     "", "x", "y", "abc", "ABC", "true", "null", "10", "007", "a b", "a/b", "x-y_z", "Hello World", "AWS::S3::Bucket",
     "é", "日本語", "naïve café", "😀", "aé😀z", "ключ", "line1\nline2", "tab\there", "quote\"q", "it's", "%41%20b", "{\"j\":1}", "2024-01-01T00:00:00Z",
@@ -24,6 +24,55 @@ pub const INTS: &[i64] = &[0, 1, -1, 2, 3, 5, 10, 42, 100, 443, 8080, 65535, i32
 pub const FLOATS: &[f64] = &[0.0, 0.5, 1.5, -2.25, 3.14159, 1e10, 1e-7, 100.0, 1.0e308, -0.0];
 pub const CFN_TYPES: &[&str] = &["AWS::S3::Bucket", "AWS::EC2::Volume", "AWS::IAM::Role", "Custom::Thing"];
 pub const CFN_PROPS: &[&str] = &["BucketName", "Size", "Encrypted", "Tags", "Policy", "AvailabilityZone", "Name", "Versioning"];
+
+/// Other spellings of a key that the evaluator's case converters (camel, class, kebab,
+/// pascal, snake, title, train) map onto each other.
+pub fn case_variants(k: &str) -> Vec<String> {
+    // words: split at separators and at lower->upper transitions (bucketName, BucketName)
+    let mut words: Vec<String> = Vec::new();
+    let mut cur = String::new();
+    let mut prev_lower = false;
+    for c in k.chars() {
+        if c == '_' || c == '-' || c == ' ' {
+            if !cur.is_empty() {
+                words.push(std::mem::take(&mut cur));
+            }
+            prev_lower = false;
+            continue;
+        }
+        if c.is_uppercase() && prev_lower && !cur.is_empty() {
+            words.push(std::mem::take(&mut cur));
+        }
+        prev_lower = c.is_lowercase() || c.is_ascii_digit();
+        cur.push(c);
+    }
+    if !cur.is_empty() {
+        words.push(cur);
+    }
+    if words.is_empty() || !k.chars().all(|c| c.is_ascii_alphanumeric() || c == '_' || c == '-' || c == ' ') {
+        return vec![];
+    }
+    let cap = |w: &str| -> String {
+        let mut c = w.chars();
+        match c.next() {
+            Some(f) => f.to_uppercase().collect::<String>() + c.as_str(),
+            None => String::new(),
+        }
+    };
+    let lower: Vec<String> = words.iter().map(|w| w.to_lowercase()).collect();
+    let mut out = vec![
+        lower.join("_"),
+        lower.join("-"),
+        lower.iter().map(|w| cap(w)).collect::<Vec<_>>().join(""),
+        lower[0].clone() + &lower[1..].iter().map(|w| cap(w)).collect::<Vec<_>>().join(""),
+        lower.iter().map(|w| cap(w)).collect::<Vec<_>>().join("-"),
+        lower.iter().map(|w| cap(w)).collect::<Vec<_>>().join(" "),
+    ];
+    out.sort();
+    out.dedup();
+    out.retain(|v| v != k);
+    out
+}
 
 pub fn gen_scalar(r: &mut Rng) -> J {
     match r.below(12) {
@@ -46,7 +95,20 @@ fn gen_value(r: &mut Rng, depth: usize, budget: &mut i32) -> J {
             let n = r.usize(4);
             let mut keys: Vec<&str> = KEYS.to_vec();
             r.shuffle(&mut keys);
-            J::Map((0..n).map(|i| (keys[i].to_string(), gen_value(r, depth - 1, budget))).collect())
+            let mut kv: Vec<(String, J)> = (0..n).map(|i| (keys[i].to_string(), gen_value(r, depth - 1, budget))).collect();
+            // occasionally the same key in a second spelling, with its own value
+            if !kv.is_empty() && r.chance(1, 6) {
+                let i = r.usize(kv.len());
+                let vars = case_variants(&kv[i].0);
+                if !vars.is_empty() {
+                    let v = vars[r.usize(vars.len())].clone();
+                    if !kv.iter().any(|(k, _)| *k == v) {
+                        let val = if r.chance(1, 2) { gen_scalar(r) } else { mutate(r, &kv[i].1.clone()) };
+                        kv.push((v, val));
+                    }
+                }
+            }
+            J::Map(kv)
         }
         _ => {
             let n = r.usize(4);
@@ -72,7 +134,19 @@ pub fn gen_doc(r: &mut Rng) -> J {
     let mut keys: Vec<&str> = KEYS.to_vec();
     r.shuffle(&mut keys);
     let depth = 1 + r.usize(4);
-    J::Map((0..n).map(|i| (keys[i].to_string(), gen_value(r, depth, &mut budget))).collect())
+    let mut kv: Vec<(String, J)> = (0..n).map(|i| (keys[i].to_string(), gen_value(r, depth, &mut budget))).collect();
+    if r.chance(1, 5) {
+        let i = r.usize(kv.len());
+        let vars = case_variants(&kv[i].0);
+        if !vars.is_empty() {
+            let v = vars[r.usize(vars.len())].clone();
+            if !kv.iter().any(|(k, _)| *k == v) {
+                let val = gen_scalar(r);
+                kv.push((v, val));
+            }
+        }
+    }
+    J::Map(kv)
 }
 
 /// A CloudFormation-shaped template: Resources with 1..5 resources over 1..3 types.
@@ -103,6 +177,14 @@ pub fn gen_cfn(r: &mut Rng) -> J {
                 }
             };
             props.push((p.to_string(), v));
+            // the same property in a second spelling (legal: a different key), other value
+            if r.chance(1, 5) {
+                let vars = case_variants(p);
+                if !vars.is_empty() {
+                    let alt = vars[r.usize(vars.len())].clone();
+                    props.push((alt, J::Str((*r.pick(&["x", "y", "logs-a", "us-west-2a"])).to_string())));
+                }
+            }
         }
         let mut res = vec![("Type".to_string(), J::Str(ty.to_string()))];
         if np > 0 || r.chance(1, 2) {
